@@ -19,6 +19,8 @@ import (
 	"strconv"
 	"strings"
 	"sync"
+	"sync/atomic"
+	"syscall"
 	"time"
 
 	"verif/world"
@@ -99,6 +101,7 @@ func cmdWorker(args []string) int {
 
 	debug.SetGCPercent(-1)
 	debug.SetMemoryLimit(6 << 30)
+	limitAddressSpace()
 	var ilog *os.File
 	if *intent != "" {
 		ilog, _ = os.OpenFile(*intent, os.O_CREATE|os.O_WRONLY|os.O_TRUNC, 0o644)
@@ -107,16 +110,49 @@ func cmdWorker(args []string) int {
 		ForeignSig: map[string]int{}, Sigs: map[string]*world.Trace{}, SigCount: map[string]int{}, DiskTuples: map[string]int{}}
 	states := map[uint64]struct{}{}
 	inter := map[uint64]struct{}{}
+	var beat int64 // unix time the current run started; 0 = between runs
+	go func() { // watchdog: a single run must finish within runTimeout
+		for {
+			time.Sleep(2 * time.Second)
+			b := atomic.LoadInt64(&beat)
+			if b != 0 && time.Now().Unix()-b > runTimeout {
+				fmt.Fprintf(os.Stderr, "HANG: run exceeded %d s\n", runTimeout)
+				if ilog != nil {
+					fmt.Fprintf(ilog, "HANG\n")
+				}
+				os.Exit(3)
+			}
+		}
+	}()
+	flush := func() {
+		res.States, res.Inter = res.States[:0], res.Inter[:0]
+		for h := range states {
+			res.States = append(res.States, h)
+		}
+		for h := range inter {
+			res.Inter = append(res.Inter, h)
+		}
+		b, _ := json.Marshal(res)
+		if *out != "" {
+			os.WriteFile(*out+".tmp", b, 0o644)
+			os.Rename(*out+".tmp", *out)
+		}
+	}
 	for k := 0; k < *count; k++ {
 		if *deadline > 0 && time.Now().Unix() > *deadline {
 			break
 		}
 		idx := *from + k**stride
 		s := world.Mix(*seed, world.HashStr(*prop), uint64(idx))
+		if k%32 == 0 && k > 0 {
+			flush()
+		}
 		if ilog != nil {
 			fmt.Fprintf(ilog, "BEGIN %d %d\n", idx, s)
 		}
+		atomic.StoreInt64(&beat, time.Now().Unix())
 		tr, st := world.RunSeed(*prop, *profile, s, idx)
+		atomic.StoreInt64(&beat, 0)
 		res.Runs++
 		res.Steps += st.Steps
 		res.Effective += st.Effective
@@ -159,20 +195,24 @@ func cmdWorker(args []string) int {
 		}
 		runtime.GC()
 	}
-	for h := range states {
-		res.States = append(res.States, h)
-	}
-	for h := range inter {
-		res.Inter = append(res.Inter, h)
-	}
-	b, _ := json.Marshal(res)
-	if *out != "" {
-		if err := os.WriteFile(*out, b, 0o644); err != nil {
-			fmt.Fprintln(os.Stderr, err)
-			return 2
-		}
+	flush()
+	if ilog != nil {
+		fmt.Fprintf(ilog, "END\n")
 	}
 	return 0
+}
+
+const runTimeout = 120
+
+// limitAddressSpace caps virtual memory so that a table sized from an
+// attacker's count fails at once instead of taking the sandbox down
+// (not possible in race builds: the detector maps terabytes of shadow memory).
+func limitAddressSpace() {
+	if raceEnabled {
+		return
+	}
+	lim := syscall.Rlimit{Cur: 24 << 30, Max: 24 << 30}
+	syscall.Setrlimit(syscall.RLIMIT_AS, &lim)
 }
 
 // ------------------------------------------------------------------ replay
@@ -215,7 +255,15 @@ func cmdReplay(args []string) int {
 		}
 		return 1
 	}
-	fails, _ := world.Replay(&tr)
+	limitAddressSpace()
+	var fails []world.Failure
+	if tr.Note == "by-seed" {
+		// a run that killed its process: regenerate it from its seed
+		t2, _ := world.RunSeed(tr.Prop, tr.Profile, tr.Seed, tr.Index)
+		fails = t2.Fails
+	} else {
+		fails, _ = world.Replay(&tr)
+	}
 	hit := false
 	for _, f := range fails {
 		if !*quiet {
@@ -334,10 +382,16 @@ func cmdCheck(args []string) int {
 	}
 	per := (bud.runs + nw - 1) / nw
 	deadline := start.Add(bud.wallCap).Unix()
+	type crash struct {
+		idx  int
+		seed uint64
+		kind string // crash | hang
+		log  string
+	}
 	type wres struct {
-		out   *workerOut
-		err   error
-		crash string
+		outs    []*workerOut
+		err     error
+		crashes []crash
 	}
 	results := make([]wres, nw)
 	var wg sync.WaitGroup
@@ -345,39 +399,61 @@ func cmdCheck(args []string) int {
 		wg.Add(1)
 		go func(i int) {
 			defer wg.Done()
-			outf := filepath.Join(scratch, fmt.Sprintf("w%d.json", i))
-			intent := filepath.Join(scratch, fmt.Sprintf("w%d.intent", i))
-			logf := filepath.Join(scratch, fmt.Sprintf("w%d.log", i))
-			cmd := exec.Command(self, "worker", "-prop", *prop, "-profile", *profile, "-seed", fmt.Sprint(seed),
-				"-from", fmt.Sprint(i), "-stride", fmt.Sprint(nw), "-count", fmt.Sprint(per), "-out", outf, "-intent", intent,
-				"-deadline", fmt.Sprint(deadline))
-			cmd.Env = append(os.Environ(), "GODEBUG=clobberfree=1", "GOTRACEBACK=single")
-			lf, _ := os.Create(logf)
-			cmd.Stdout, cmd.Stderr = lf, lf
-			err := cmd.Run()
-			lf.Close()
-			if err != nil {
+			from, remaining := i, per
+			for attempt := 0; attempt < 8 && remaining > 0; attempt++ {
+				outf := filepath.Join(scratch, fmt.Sprintf("w%d-%d.json", i, attempt))
+				intent := filepath.Join(scratch, fmt.Sprintf("w%d-%d.intent", i, attempt))
+				logf := filepath.Join(scratch, fmt.Sprintf("w%d-%d.log", i, attempt))
+				cmd := exec.Command(self, "worker", "-prop", *prop, "-profile", *profile, "-seed", fmt.Sprint(seed),
+					"-from", fmt.Sprint(from), "-stride", fmt.Sprint(nw), "-count", fmt.Sprint(remaining), "-out", outf, "-intent", intent,
+					"-deadline", fmt.Sprint(deadline))
+				cmd.Env = append(os.Environ(), "GODEBUG=clobberfree=1", "GOTRACEBACK=single")
+				lf, _ := os.Create(logf)
+				cmd.Stdout, cmd.Stderr = lf, lf
+				err := cmd.Run()
+				lf.Close()
+				if b, rerr := os.ReadFile(outf); rerr == nil {
+					var o workerOut
+					if json.Unmarshal(b, &o) == nil {
+						results[i].outs = append(results[i].outs, &o)
+					}
+				} else if err == nil {
+					results[i].err = rerr
+					return
+				}
+				if err == nil {
+					return
+				}
+				// the worker died inside a run: find which one, remember it, carry on after it
 				ib, _ := os.ReadFile(intent)
 				lines := strings.Split(strings.TrimSpace(string(ib)), "\n")
+				kind := "crash"
+				var idx int
+				var sd uint64
+				found := false
+				for j := len(lines) - 1; j >= 0; j-- {
+					if lines[j] == "HANG" {
+						kind = "hang"
+					}
+					if n, _ := fmt.Sscanf(lines[j], "BEGIN %d %d", &idx, &sd); n == 2 {
+						found = true
+						break
+					}
+				}
 				lb, _ := os.ReadFile(logf)
 				tail := string(lb)
-				if len(tail) > 3000 {
-					tail = tail[:3000]
+				if len(tail) > 2500 {
+					tail = tail[:2500]
 				}
-				results[i] = wres{err: err, crash: lines[len(lines)-1] + "\n" + tail}
-				return
+				if !found {
+					results[i].err = fmt.Errorf("worker died before its first run: %v: %s", err, tail)
+					return
+				}
+				results[i].crashes = append(results[i].crashes, crash{idx, sd, kind, tail})
+				done := (idx-i)/nw + 1
+				from = idx + nw
+				remaining = per - done
 			}
-			b, err := os.ReadFile(outf)
-			if err != nil {
-				results[i] = wres{err: err}
-				return
-			}
-			var o workerOut
-			if err := json.Unmarshal(b, &o); err != nil {
-				results[i] = wres{err: err}
-				return
-			}
-			results[i] = wres{out: &o}
 		}(i)
 	}
 	wg.Wait()
@@ -388,71 +464,97 @@ func cmdCheck(args []string) int {
 	states := map[uint64]struct{}{}
 	inter := map[uint64]struct{}{}
 	harnessFault := ""
-	var crashes []string
+	var allCrashes []crash
 	for i, r := range results {
 		if r.err != nil {
-			if r.crash != "" {
-				crashes = append(crashes, fmt.Sprintf("worker %d: %v: %s", i, r.err, r.crash))
-			} else {
-				harnessFault = fmt.Sprintf("worker %d: %v", i, r.err)
+			harnessFault = fmt.Sprintf("worker %d: %v", i, r.err)
+		}
+		allCrashes = append(allCrashes, r.crashes...)
+		for _, o := range r.outs {
+			tot.Runs += o.Runs
+			tot.Steps += o.Steps
+			tot.Effective += o.Effective
+			tot.NonTrivial += o.NonTrivial
+			addMap(tot.Ops, o.Ops)
+			addMap(tot.Probes, o.Probes)
+			addMap(tot.Faults, o.Faults)
+			addMap(tot.Pairings, o.Pairings)
+			addMap(tot.ForeignSig, o.ForeignSig)
+			addMap(tot.SigCount, o.SigCount)
+			addMap(tot.DiskTuples, o.DiskTuples)
+			tot.Foreign += o.Foreign
+			tot.Unconf += o.Unconf
+			tot.GCs += o.GCs
+			tot.Decisions += o.Decisions
+			tot.DetChecked += o.DetChecked
+			tot.DetBad = append(tot.DetBad, o.DetBad...)
+			for _, h := range o.States {
+				states[h] = struct{}{}
 			}
-			continue
-		}
-		o := r.out
-		tot.Runs += o.Runs
-		tot.Steps += o.Steps
-		tot.Effective += o.Effective
-		tot.NonTrivial += o.NonTrivial
-		addMap(tot.Ops, o.Ops)
-		addMap(tot.Probes, o.Probes)
-		addMap(tot.Faults, o.Faults)
-		addMap(tot.Pairings, o.Pairings)
-		addMap(tot.ForeignSig, o.ForeignSig)
-		addMap(tot.SigCount, o.SigCount)
-		addMap(tot.DiskTuples, o.DiskTuples)
-		tot.Foreign += o.Foreign
-		tot.Unconf += o.Unconf
-		tot.GCs += o.GCs
-		tot.Decisions += o.Decisions
-		tot.DetChecked += o.DetChecked
-		tot.DetBad = append(tot.DetBad, o.DetBad...)
-		for _, h := range o.States {
-			states[h] = struct{}{}
-		}
-		for _, h := range o.Inter {
-			inter[h] = struct{}{}
-		}
-		for s, t := range o.Sigs {
-			if cur := tot.Sigs[s]; cur == nil || t.Index < cur.Index {
-				tot.Sigs[s] = t
+			for _, h := range o.Inter {
+				inter[h] = struct{}{}
 			}
-		}
-		if len(tot.Samples) < 3 {
-			tot.Samples = append(tot.Samples, o.Samples...)
+			for s, t := range o.Sigs {
+				if cur := tot.Sigs[s]; cur == nil || t.Index < cur.Index {
+					tot.Sigs[s] = t
+				}
+			}
+			if len(tot.Samples) < 3 {
+				tot.Samples = append(tot.Samples, o.Samples...)
+			}
 		}
 	}
-	if len(crashes) > 0 {
-		// a worker died: fatal error inside a run. Attribute, but a dead process is
-		// first of all a harness matter: exit 2 with the seed so that it can be examined.
-		for _, c := range crashes {
-			fmt.Println("WORKER-CRASH", c)
+	// a run that killed its worker (fatal error, out of memory, hang): reproduce it
+	// alone in a fresh process from its seed; reproducible = the library did it.
+	known := loadFindings(*verif)
+	os.MkdirAll(filepath.Join(*verif, "replays"), 0o755)
+	violations := 0
+	knownHits := 0
+	fatalSeen := map[string]bool{}
+	for ci, c := range allCrashes {
+		class := c.kind
+		for _, l := range strings.Split(c.log, "\n") {
+			if strings.HasPrefix(l, "fatal error:") || strings.HasPrefix(l, "panic:") || strings.HasPrefix(l, "runtime: out of memory") {
+				class = l
+				break
+			}
 		}
-		harnessFault = "worker process crashed (see WORKER-CRASH lines)"
+		sig := *prop + "|fatal|" + c.kind + "|" + classSig(class)
+		tot.Faults["worker-process-killed-by-run"]++
+		if fatalSeen[sig] || ci >= 6 {
+			continue
+		}
+		fatalSeen[sig] = true
+		tr := &world.Trace{Prop: *prop, Profile: *profile, Seed: c.seed, Index: c.idx, Note: "by-seed",
+			Fails: []world.Failure{{Prop: *prop, Oracle: "fatal", Op: c.kind, Class: classSig(class), Detail: c.log}}}
+		tb, _ := json.MarshalIndent(tr, "", " ")
+		name := filepath.Join(*verif, "replays", fmt.Sprintf("%s-%d-fatal.json", *prop, c.seed))
+		os.WriteFile(name, tb, 0o644)
+		code := runSelfTimeout(self, 200*time.Second, "replay", "-q", name)
+		if code == 0 || code == 1 {
+			fmt.Printf("WORKER-CRASH not reproducible from its seed (index %d seed %d): %s\n", c.idx, c.seed, class)
+			harnessFault = "a worker died and the run does not reproduce: " + class
+			os.Remove(name)
+			continue
+		}
+		if f := matchFinding(known, *prop, sig); f != nil {
+			fmt.Printf("KNOWN-FINDING: property=%s %s [sig %s]\n", *prop, f.What, sig)
+			knownHits++
+			continue
+		}
+		violations++
+		fmt.Printf("VIOLATION property=%s replay=%s\n  sig=%s\n  the run kills its process (%s); index=%d seed=%d\n  %s\n", *prop, name, sig, c.kind, c.idx, c.seed, firstLines(c.log, 12))
 	}
 	if len(tot.DetBad) > 0 {
 		harnessFault = "determinism self-check failed: " + strings.Join(tot.DetBad, "; ")
 	}
 
 	// triage signatures
-	known := loadFindings(*verif)
 	var sigs []string
 	for s := range tot.Sigs {
 		sigs = append(sigs, s)
 	}
 	sort.Slice(sigs, func(i, j int) bool { return tot.Sigs[sigs[i]].Index < tot.Sigs[sigs[j]].Index })
-	violations := 0
-	knownHits := 0
-	os.MkdirAll(filepath.Join(*verif, "replays"), 0o755)
 	reported := 0
 	for _, s := range sigs {
 		tr := tot.Sigs[s]
@@ -564,6 +666,50 @@ func cmdCheck(args []string) int {
 		return 2
 	}
 	return 0
+}
+
+func classSig(s string) string {
+	out := []byte(s)
+	for i, c := range out {
+		if c >= '0' && c <= '9' {
+			out[i] = '#'
+		}
+	}
+	if len(out) > 80 {
+		out = out[:80]
+	}
+	return string(out)
+}
+
+func firstLines(s string, n int) string {
+	l := strings.Split(s, "\n")
+	if len(l) > n {
+		l = l[:n]
+	}
+	return strings.Join(l, "\n  ")
+}
+
+func runSelfTimeout(self string, d time.Duration, args ...string) int {
+	cmd := exec.Command(self, args...)
+	cmd.Env = append(os.Environ(), "GODEBUG=clobberfree=1", "GOTRACEBACK=single")
+	if err := cmd.Start(); err != nil {
+		return 2
+	}
+	done := make(chan error, 1)
+	go func() { done <- cmd.Wait() }()
+	select {
+	case err := <-done:
+		if err == nil {
+			return 0
+		}
+		if ee, ok := err.(*exec.ExitError); ok {
+			return ee.ExitCode()
+		}
+		return 2
+	case <-time.After(d):
+		cmd.Process.Kill()
+		return -9
+	}
 }
 
 func runSelf(self string, args ...string) int {
